@@ -171,6 +171,10 @@ class Ent:
         return ok and self.uncompressed_size() + 12 <= 8966
 
 
+class BuilderDoesNotTerminate(Exception):
+    pass
+
+
 class GenMsg:
     def __init__(self, flags, id_, multicast, qs, an, au, ad):
         self.flags, self.id, self.multicast = flags, id_, multicast
@@ -179,7 +183,21 @@ class GenMsg:
     def to_lib(self):
         from zeroconf import DNSOutgoing
 
-        out = DNSOutgoing(self.flags, self.multicast, self.id)
+        limit = len(self.qs) + len(self.an) + len(self.au) + len(self.ad) + 4
+
+        class Guarded(DNSOutgoing):
+            """a builder that makes progress emits at most one datagram per entry (+1); a seeded defect made
+            packets() loop forever, which must be an observation, not a hang of the check"""
+
+            __slots__ = ("n_resets",)
+
+            def _reset_for_next_packet(self):
+                self.n_resets = getattr(self, "n_resets", 0) + 1
+                if self.n_resets > limit:
+                    raise BuilderDoesNotTerminate("packets() started datagram %d for %d entries" % (self.n_resets + 1, limit - 4))
+                super()._reset_for_next_packet()
+
+        out = Guarded(self.flags, self.multicast, self.id)
         for q in self.qs:
             out.add_question(q.to_lib())
         for r in self.an:
